@@ -142,19 +142,34 @@ func refChainsPath(p *qPath, prefix []string, top bool, out *[][]string, pathArg
 		case 'c':
 			for _, a := range pt.args {
 				if a.path != nil {
-					if inFilter {
-						*pathArgsInFilter = true
-					} else {
-						refChainsPath(a.path, nil, false, out, pathArgsInFilter, false)
-					}
+					refChainsArgPath(a.path, out, pathArgsInFilter, inFilter)
 				}
-				if a.group != nil && inFilter {
-					*pathArgsInFilter = true
+				if a.group != nil {
+					refChainsArgGroup(a.group, out, pathArgsInFilter, inFilter)
 				}
 			}
 		}
 	}
 	*out = append(*out, append(append([]string{}, prefix...), idents...))
+}
+// an argument that is a path navigates its own chain: a `$` path from the root of the data wherever it stands; an `@` path from the
+// value the function is applied to - at the top level its chain is listed as it is, inside a filter condition the property does
+// not say what is listed for it (pathArgsInFilter: exactness is then not checked)
+func refChainsArgPath(p *qPath, out *[][]string, pathArgsInFilter *bool, inFilter bool) {
+	if p.root == '@' && inFilter {
+		*pathArgsInFilter = true
+		return
+	}
+	refChainsPath(p, nil, false, out, pathArgsInFilter, false)
+}
+func refChainsArgGroup(g *qGroup, out *[][]string, pathArgsInFilter *bool, inFilter bool) {
+	for _, o := range g.ops {
+		if o.path != nil {
+			refChainsArgPath(o.path, out, pathArgsInFilter, inFilter)
+		} else {
+			refChainsArgGroup(o.group, out, pathArgsInFilter, inFilter)
+		}
+	}
 }
 func refChainsGroup(g *qGroup, prefix []string, out *[][]string, pathArgsInFilter *bool, inFilter bool) {
 	for _, o := range g.ops {
@@ -193,7 +208,15 @@ func c20Pred(r *rng, depth int, allowDollarArg bool) *qPath {
 		p.parts = append(p.parts, qPart{kind: 'c', name: "IsNotNull"})
 	case 3:
 		if allowDollarArg {
-			p.parts = append(p.parts, qPart{kind: 'c', name: "Equal", args: []qArg{{path: &qPath{root: '$', parts: []qPart{{kind: 'k', name: r.Pick(c20Roots)}}}}}})
+			dp := &qPath{root: '$', parts: []qPart{{kind: 'k', name: r.Pick(c20Roots)}}}
+			if r.Intn(2) == 0 { // a chain of two keys: it is the chain of a `$` path, not one below the collection that is filtered
+				dp.parts = append(dp.parts, qPart{kind: 'k', name: r.Pick(c20Sub)})
+			}
+			if r.Intn(3) == 0 {
+				p.parts = append(p.parts, qPart{kind: 'c', name: "Equal", args: []qArg{{group: &qGroup{mode: r.Pick([]string{"", "OR"}), ops: []qOp{{path: dp}}}}}})
+			} else {
+				p.parts = append(p.parts, qPart{kind: 'c', name: "Equal", args: []qArg{{path: dp}}})
+			}
 		} else {
 			p.parts = append(p.parts, qPart{kind: 'c', name: "Less", args: []qArg{{lit: "3"}}})
 		}
